@@ -63,7 +63,7 @@ def confirm(name, src, patch):
 def main():
     todo = []
     for d in sorted(os.listdir("/tmp/seed")):
-        if d.startswith("out-"):
+        if d.startswith("out-") and os.path.isdir(os.path.join("/tmp/seed", d)):
             pid = d[4:]
             for m in sorted(os.listdir(os.path.join("/tmp/seed", d))):
                 src = os.path.join("/tmp/seed", d, m)
